@@ -174,6 +174,40 @@ func truncCase(r *vh.Rand, fm string) string {
 	return fmt.Sprintf("trunc %s %s %d %s", fm, vh.Hex(append(append([]byte(nil), good...), extra[:lo]...)), len(good), toks)
 }
 
+// size fields at the integer extremes (raw and uripost)
+var extremeSizes = []string{"9223372036854775807", "9223372036854775806", "9223372036854775507", "9223372036854775296",
+	"9223372036854775295", "9223372036854775294", "9223372036854775207", "-9223372036854775808", "-9223372036854775809",
+	"9223372036854775808", "18446744073709551615", "18446744073709551616", "99999999999999999999", "4294967296", "2147483648", "+5", "-0", "00000000000000000003"}
+
+func extremeCases() []string {
+	var out []string
+	for _, sz := range extremeSizes {
+		raw := []byte(sz + " tag\nGET / HTTP/1.0\r\n\r\n")
+		up := []byte(sz + " /a tag\nabc\n")
+		out = append(out, wrapHostile("ammo raw "+vh.Hex(raw), raw), wrapHostile("ammo uripost "+vh.Hex(up), up))
+	}
+	return out
+}
+
+// header lines whose key is empty or only white space after trimming: must be rejected
+var blankKeyHeaders = []string{"[ : value]", "[\t: v]", "[:v]", "[ \t :]", "[\xc2\xa0: v]", "[  :  ]", "[\v:x]", "[ :a:b]"}
+
+// other boundary header texts for the config list (model decides; a blank value is accepted)
+var otherHeaders = []string{"[A: b]", "[A:]", "[A: ]", "[ Host : example.com ]", "[]", "[:]", "[A]", "A: b", " [A: b]", "[A: b] ", "[a-b:c]", "[A:b:c]", "[A: b]]", "[[A: b]", ""}
+
+func badHeaderCase(r *vh.Rand, fm string) string {
+	good, toks := validFile(r, fm, true)
+	l := a07ammo.Line{Kind: 'B'}
+	bad := r.Pick([]string{"", " ", "\t"}) + r.Pick(blankKeyHeaders) + r.Pick([]string{"", " ", "\r"}) + "\n"
+	_ = l
+	after := "/after tag\n"
+	if fm == "uripost" {
+		after = "3 /after t\nabc\n"
+	}
+	file := append(append(append([]byte(nil), good...), bad...), after...)
+	return fmt.Sprintf("badhdr %s %s %d %s", fm, vh.Hex(file), len(good), toks)
+}
+
 var shootPool = []string{"a", "b", "c", "a(2)", "a(2,10)", "b( 3 , 5 )", "sleep(10)", "sleep(0)", "sleep", "sleepy(2)", "a()", "a(,7)", "a(0)", "a(-1)", "c(1,-5)",
 	"a(", "a)", ")a(", "a(1))", "a((1)", "a(1,2,3)", "(3)", "a(x)", "a(1,y)", "zz", "zz(1)", "", " a ( 2 ) ", "a(99999999999999999999)", "a(1)b", "ü(1)", "a(+2)", "a(1.5)", "A"}
 
@@ -190,7 +224,13 @@ func gen(r *vh.Rand, tier string) []string {
 	if tier == "thorough" {
 		n = 2500
 	}
-	var out []string
+	out := extremeCases()
+	for _, h := range blankKeyHeaders {
+		out = append(out, "cfghdr "+vh.HexS(h))
+	}
+	for _, h := range otherHeaders {
+		out = append(out, "cfghdr "+vh.HexS(h))
+	}
 	formats := []string{"uri", "uripost", "raw", "json"}
 	for i := 0; i < n; i++ {
 		for _, fm := range formats {
@@ -212,6 +252,9 @@ func gen(r *vh.Rand, tier string) []string {
 				out = append(out, wrapHostile(fmt.Sprintf("pfx %s %s %d %s", fm, vh.Hex(file), len(good), toks), file))
 			}
 			out = append(out, truncCase(r, fm))
+			if fm == "uri" || fm == "uripost" {
+				out = append(out, badHeaderCase(r, fm))
+			}
 			// pure random bytes
 			rb := randomBytes(r)
 			out = append(out, wrapHostile(fmt.Sprintf("ammo %s %s", fm, vh.Hex(rb)), rb))
